@@ -271,13 +271,9 @@ func (c *Ctx) isEgoAccessor(f *types.Func) bool {
 				continue
 			}
 		}
-		if len(fd.Body.List) == 1 {
-			if r, ok := fd.Body.List[0].(*ast.ReturnStmt); ok && len(r.Results) == 1 {
-				if sel, ok := unparen(r.Results[0]).(*ast.SelectorExpr); ok && c.obj(sel.X) == c.recvObj(fd) {
-					if s := c.Info.Selections[sel]; s != nil && s.Obj() == ct.Ptr {
-						return true
-					}
-				}
+		if t, ok := c.accessorTerm(fd).(TSel); ok && t.Field == ct.Ptr {
+			if tv, ok := t.X.(TVar); ok && tv.Obj == c.recvObj(fd) {
+				return true
 			}
 		}
 	}
@@ -308,6 +304,32 @@ func (c *Ctx) isRecvSpine(fd *ast.FuncDecl, e ast.Expr) bool {
 	return ct != nil && c.obj(x) == c.recvObj(fd) && c.recvObj(fd) != nil
 }
 
+// accessorTerm: the one term a method without parameters returns on every path, when it has no effects and no decisions
+// (`return recv.ptr`, `n := len(recv.val); return n`, a named result assigned and returned bare); nil otherwise.
+var accessorTerms = map[*ast.FuncDecl]Term{}
+
+func (c *Ctx) accessorTerm(fd *ast.FuncDecl) Term {
+	if t, ok := accessorTerms[fd]; ok {
+		return t
+	}
+	accessorTerms[fd] = nil
+	if fd.Body == nil || fd.Type.Params.NumFields() != 0 {
+		return nil
+	}
+	var out Term
+	for _, p := range c.NewSX().Run(fd) {
+		if p.Why != "" || len(p.Steps) != 0 || p.End != "return" || len(p.Vals) != 1 {
+			return nil
+		}
+		if out != nil && !sameTerm(out, p.Vals[0]) {
+			return nil
+		}
+		out = p.Vals[0]
+	}
+	accessorTerms[fd] = out
+	return out
+}
+
 // isLenAccessor: method f's implementation returns len(recv.val).
 func (c *Ctx) isLenAccessor(f *types.Func) bool {
 	if f == nil {
@@ -319,9 +341,9 @@ func (c *Ctx) isLenAccessor(f *types.Func) bool {
 		if fd == nil {
 			continue
 		}
-		if len(fd.Body.List) == 1 {
-			if r, ok := fd.Body.List[0].(*ast.ReturnStmt); ok && len(r.Results) == 1 {
-				if call, ok := unparen(r.Results[0]).(*ast.CallExpr); ok && c.isBuiltin(call, "len") && len(call.Args) == 1 && c.isRecvSpine(fd, call.Args[0]) {
+		if t, ok := c.accessorTerm(fd).(TBuiltin); ok && t.Name == "len" && len(t.Args) == 1 {
+			if sp, ok := t.Args[0].(TSel); ok && sp.Field == ct.Spine {
+				if tv, ok := sp.X.(TVar); ok && tv.Obj == c.recvObj(fd) {
 					found = true
 					continue
 				}
@@ -381,3 +403,18 @@ func ifaceMethods(n *types.Named) []*types.Func {
 }
 
 func sortStrings(s []string) { sort.Strings(s) }
+
+// isParamOf: v is a parameter (not the receiver, not a result) of fd.
+func (c *Ctx) isParamOf(fd *ast.FuncDecl, v *types.Var) bool {
+	if fd == nil || fd.Type.Params == nil {
+		return false
+	}
+	for _, f := range fd.Type.Params.List {
+		for _, nm := range f.Names {
+			if c.Info.Defs[nm] == types.Object(v) {
+				return true
+			}
+		}
+	}
+	return false
+}
